@@ -326,7 +326,15 @@ def pack_hazard(layout, levels):
 
 
 def has_reg0(layout):
-    return any(node[0] == 'reg' and node[1] == 0 for _, node in G.nodes(layout))
+    """a regular dimension of size 0: a RegularArray node, or a zero inner dimension of an n-d NumpyArray"""
+    return any((node[0] == 'reg' and node[1] == 0) or
+               (node[0] in ('np', 'nps') and isinstance(node[2], list) and any(int(d) == 0 for d in node[2][1:]))
+               for _, node in G.nodes(layout))
+
+
+def has_nd(layout):
+    """an n-d NumpyArray node (the library turns it into RegularArray levels before broadcasting)"""
+    return any(node[0] in ('np', 'nps') and isinstance(node[2], list) and len(node[2]) > 1 for _, node in G.nodes(layout))
 
 
 def reg_untrimmed(layout):
@@ -1258,7 +1266,7 @@ def signature(prop, c, impl, verdict):
             return body.startswith('(') and not re.search(r'[0-9]|true|false|nan|inf', body)
         if all((G.child_len(l) or 0) == 0 for l in lays) or no_leaves('impl') or no_leaves('spec'):
             return 'broadcast-all-same-offsets-regular-zero-length'
-    if any(has_node(l, ('reg',)) for l in lays) and impl.startswith('err') and 'cannot broadcast' in msg \
+    if any(has_node(l, ('reg',)) or has_nd(l) for l in lays) and impl.startswith('err') and 'cannot broadcast' in msg \
             and ' of length ' in msg and verdict.startswith('viol value') and '(spec err)' not in verdict:
         return 'regular-level-no-left-broadcast'
     # ---- defects that have been FIXED in /repo (a fixed entry suppresses nothing: a regression is reported by name)
